@@ -2,9 +2,9 @@
 package c14
 
 import (
-	"errors"
 	"bytes"
 	"encoding/json"
+	"errors"
 	"fmt"
 	"os"
 	"os/exec"
@@ -20,9 +20,11 @@ import (
 	"github.com/moorara/algo/grammar"
 	"pgregory.net/rapid"
 
+	"github.com/gardenbed/charm/ui"
 	ebnf "github.com/gardenbed/emerge/internal/ebnf/parser"
 	east "github.com/gardenbed/emerge/internal/ebnf/parser/ast"
 	"github.com/gardenbed/emerge/internal/ebnf/parser/spec"
+	"github.com/gardenbed/emerge/internal/generate/golang"
 	rast "github.com/gardenbed/emerge/internal/regex/parser/ast"
 	"github.com/gardenbed/emerge/internal/regex/parser/nfa"
 	"github.com/gardenbed/emerge/internal/vh/emit"
@@ -89,9 +91,9 @@ func unproductiveKnown() bool {
 }
 
 type input struct {
-	Kind string `json:"kind"` // spec | pattern | cli
-	Data []byte `json:"data,omitempty"`
-	Text string `json:"text,omitempty"`
+	Kind string   `json:"kind"` // spec | pattern | cli
+	Data []byte   `json:"data,omitempty"`
+	Text string   `json:"text,omitempty"`
 	Args []string `json:"args,omitempty"`
 }
 
@@ -218,6 +220,7 @@ func checkSpec(data []byte) (accepted bool, consumed bool, err error) {
 		consumed = e3 == nil || !strings.Contains(e3.Error(), "ACTION[0,")
 		if sp != nil {
 			accepted = true
+			dfaPanicked := false
 			if p := rec.Guard(func() {
 				d, tm, derr := sp.DFA()
 				if (d != nil && tm != nil) == (derr != nil) {
@@ -227,6 +230,7 @@ func checkSpec(data []byte) (accepted bool, consumed bool, err error) {
 				if !(bigAutomaton(sp) && reindexKnown()) {
 					return fmt.Errorf("Spec.DFA: %v", p)
 				}
+				dfaPanicked = true
 				rec.Count("excluded_known_reindex_panic", 1)
 			}
 			if e1 != nil {
@@ -248,6 +252,17 @@ func checkSpec(data []byte) (accepted bool, consumed bool, err error) {
 				}
 				if e1 != nil {
 					return e1
+				}
+				// the last entry point: the package is generated into a scratch directory
+				if !dfaPanicked {
+					dir, derr := os.MkdirTemp("", "c14gen")
+					if derr == nil {
+						defer os.RemoveAll(dir)
+						if p := rec.Guard(func() { _ = golang.Generate(ui.NewNop(), &golang.Params{Path: dir, Spec: sp}) }); p != nil {
+							return fmt.Errorf("golang.Generate: %v", p)
+						}
+						rec.Count("specifications_generated", 1)
+					}
 				}
 			}
 		}
@@ -360,6 +375,8 @@ func checkPattern(s string) (accepted bool, err error) {
 var hostileSpecs = []string{"", "grammar", "grammar g", "grammar g;", "grammar g; start = ;", "grammar g; start = start | ;x", "grammar g; @left", "grammar g; A", "grammar g; AB = ", "grammar g; AB = $X start = AB;",
 	"grammar g; AB = /[\\x0100]/ start = AB;", "grammar g; AB = // start = AB;", "grammar g; start = \"\\", "grammar g; start = {{{ \"a\" }}};", "grammar g; start = < ;", "grammar g; @left < start = > ; start = ;",
 	"grammar g; @none <x = > <x = > ; start = x; x = ;", "grammar g; start = ((((((((((\"a\"))))))))));", "grammar g; AB = /[\\xFFFFFFFF]/ start = AB;", "grammar g; AB = /a{3,1}/ start = AB;", "grammar g; AB = /a{64}/ start = AB;", "grammar g; AB = /[a-z]{70}x/ start = AB;",
+	// a terminal without a state of its own (shadowed by a string literal; a class without members) next to others
+	"grammar g; KW = /i[f]/ start = KW \"if\" \"x\";", "grammar g; KW = /i(f)/ ID = /[a-z]+x/ start = { KW | \"if\" | ID };", "grammar g; TT = /\\p{Lt}/ start = TT \"a\";", "grammar g; NN = /[^\\x00-\\x7F]/ start = NN \"a\";",
 	// more than a hundred distinct terminals, rules and bracketed groups (tables that grow)
 	bigHostileSpec(),
 	// one specimen per semantic diagnostic, in several orders
@@ -690,6 +707,70 @@ func checkCLI(dir string, args []string) (int, error) {
 	return code, nil
 }
 
+// cliFixture fills a directory with input files of every kind and returns the pool of arguments.
+func cliFixture(dir string) []string {
+	_ = os.WriteFile(filepath.Join(dir, "ok.ebnf"), []byte("grammar okg;\nstart = \"a\" ID;\nID = $ID\n"), 0o644)
+	_ = os.WriteFile(filepath.Join(dir, "bad.ebnf"), []byte("grammar bad;\nstart = = ;\n"), 0o644)
+	_ = os.WriteFile(filepath.Join(dir, "sem.ebnf"), []byte("grammar sem;\nstart = UNDEF;\n"), 0o644)
+	_ = os.WriteFile(filepath.Join(dir, "pat.ebnf"), []byte("grammar pat;\nAB = /[\\x0100](/\nstart = AB;\n"), 0o644)
+	_ = os.WriteFile(filepath.Join(dir, "conf.ebnf"), []byte("grammar conf;\nstart = start \"+\" start | \"i\";\n"), 0o644)
+	_ = os.WriteFile(filepath.Join(dir, "cyc.ebnf"), []byte("grammar cyc;\nstart = x;\nx = \"a\" | ;\n"), 0o644)
+	{
+		// exactly 256 problems (an exit status is one byte)
+		var b strings.Builder
+		b.WriteString("grammar many;\nstart = \"x\"")
+		for i := 0; i < 256; i++ {
+			fmt.Fprintf(&b, " | undef_%d", i)
+		}
+		b.WriteString(";\n")
+		_ = os.WriteFile(filepath.Join(dir, "many.ebnf"), []byte(b.String()), 0o644)
+	}
+	_ = os.WriteFile(filepath.Join(dir, "empty.ebnf"), nil, 0o644)
+	_ = os.WriteFile(filepath.Join(dir, "bin.ebnf"), []byte{0xff, 0xfe, 0x00, 0x80, 'g', 'r'}, 0o644)
+	_ = os.WriteFile(filepath.Join(dir, "noperm.ebnf"), []byte("grammar np;\nstart = \"a\";\n"), 0o000)
+	_ = os.Mkdir(filepath.Join(dir, "adir"), 0o755)
+	_ = os.Mkdir(filepath.Join(dir, "out"), 0o755)
+	pool := []string{"many.ebnf", "ok.ebnf", "bad.ebnf", "sem.ebnf", "pat.ebnf", "conf.ebnf", "cyc.ebnf", "empty.ebnf", "bin.ebnf", "noperm.ebnf", "adir", "missing.ebnf", "",
+		"-out", "-out=out", "-out=missing", "-out=~", "-out=~/", "-out=~x", "-out=.", "-out=/", "-name=~", "-name=.", "~", "-out=ok.ebnf", "-name", "-name=pkg", "-name=9x", "-name=func", "-name=", "-debug", "-verbose", "-help", "-version", "-h", "--help", "-x", "--", "-", "-out=", "-debug=maybe", "-verbose=2",
+		"out", "-name=a/b", "-name=..", "=", "-=", "- -", "-out=ok.ebnf/sub", "-out=out/" + strings.Repeat("n", 300), "-out=missing/deeper", "-name=" + strings.Repeat("n", 300)}
+	return pool
+}
+
+// every argument of the pool together with an accepted and with a rejected specification, in both orders
+func TestCommandLinePairs(t *testing.T) {
+	rec.Begin(t)
+	rec.Rule(rule + ruleMore)
+	if rec.Shard() != 0 {
+		t.Skip("seed independent: shard 0 only")
+	}
+	if _, err := os.Stat(os.Getenv("VERIF_EMERGE_BIN")); err != nil {
+		t.Skip("emerge binary not built")
+	}
+	dir, err := os.MkdirTemp("", "c14pairs")
+	if err != nil {
+		t.Fatalf("%v", err)
+	}
+	defer os.RemoveAll(dir)
+	pool := cliFixture(dir)
+	n := 0
+	for _, a := range pool {
+		for _, f := range []string{"ok.ebnf", "bad.ebnf"} {
+			for _, args := range [][]string{{a, f}, {f, a}} {
+				_ = os.RemoveAll(filepath.Join(dir, "out"))
+				_ = os.Mkdir(filepath.Join(dir, "out"), 0o755)
+				_ = os.RemoveAll(filepath.Join(dir, "okg"))
+				n++
+				code, err := checkCLI(dir, args)
+				rec.Case("pair:"+strings.Join(args, "\x00"), code != 0, "cli_pair")
+				if err != nil {
+					rec.Fail(t, "cli", input{Kind: "cli", Args: args}, "%v", err)
+				}
+			}
+		}
+	}
+	rec.Count("command_line_pairs", n)
+}
+
 func TestCommandLinesNeverCrash(t *testing.T) {
 	rec.Rule(rule + ruleMore)
 	bin := os.Getenv("VERIF_EMERGE_BIN")
@@ -702,30 +783,7 @@ func TestCommandLinesNeverCrash(t *testing.T) {
 			t.Fatalf("%v", err)
 		}
 		defer os.RemoveAll(dir)
-		_ = os.WriteFile(filepath.Join(dir, "ok.ebnf"), []byte("grammar okg;\nstart = \"a\" ID;\nID = $ID\n"), 0o644)
-		_ = os.WriteFile(filepath.Join(dir, "bad.ebnf"), []byte("grammar bad;\nstart = = ;\n"), 0o644)
-		_ = os.WriteFile(filepath.Join(dir, "sem.ebnf"), []byte("grammar sem;\nstart = UNDEF;\n"), 0o644)
-		_ = os.WriteFile(filepath.Join(dir, "pat.ebnf"), []byte("grammar pat;\nAB = /[\\x0100](/\nstart = AB;\n"), 0o644)
-		_ = os.WriteFile(filepath.Join(dir, "conf.ebnf"), []byte("grammar conf;\nstart = start \"+\" start | \"i\";\n"), 0o644)
-		_ = os.WriteFile(filepath.Join(dir, "cyc.ebnf"), []byte("grammar cyc;\nstart = x;\nx = \"a\" | ;\n"), 0o644)
-		{
-			// exactly 256 problems (an exit status is one byte)
-			var b strings.Builder
-			b.WriteString("grammar many;\nstart = \"x\"")
-			for i := 0; i < 256; i++ {
-				fmt.Fprintf(&b, " | undef_%d", i)
-			}
-			b.WriteString(";\n")
-			_ = os.WriteFile(filepath.Join(dir, "many.ebnf"), []byte(b.String()), 0o644)
-		}
-		_ = os.WriteFile(filepath.Join(dir, "empty.ebnf"), nil, 0o644)
-		_ = os.WriteFile(filepath.Join(dir, "bin.ebnf"), []byte{0xff, 0xfe, 0x00, 0x80, 'g', 'r'}, 0o644)
-		_ = os.WriteFile(filepath.Join(dir, "noperm.ebnf"), []byte("grammar np;\nstart = \"a\";\n"), 0o000)
-		_ = os.Mkdir(filepath.Join(dir, "adir"), 0o755)
-		_ = os.Mkdir(filepath.Join(dir, "out"), 0o755)
-		pool := []string{"many.ebnf", "ok.ebnf", "bad.ebnf", "sem.ebnf", "pat.ebnf", "conf.ebnf", "cyc.ebnf", "empty.ebnf", "bin.ebnf", "noperm.ebnf", "adir", "missing.ebnf", "",
-			"-out", "-out=out", "-out=missing", "-out=ok.ebnf", "-name", "-name=pkg", "-name=9x", "-name=func", "-name=", "-debug", "-verbose", "-help", "-version", "-h", "--help", "-x", "--", "-", "-out=", "-debug=maybe", "-verbose=2",
-			"out", "-name=a/b", "-name=..", "=", "-=", "- -", "-out=ok.ebnf/sub", "-out=out/" + strings.Repeat("n", 300), "-out=missing/deeper", "-name=" + strings.Repeat("n", 300)}
+		pool := cliFixture(dir)
 		n := rapid.IntRange(0, 4).Draw(t, "nargs")
 		var args []string
 		for i := 0; i < n; i++ {
